@@ -7,6 +7,7 @@ mod driver;
 mod gen;
 mod hcase;
 mod implrun;
+mod inventory;
 mod proto;
 mod record;
 mod rng;
